@@ -162,7 +162,7 @@ def run(ck: Checker):
         info2 = it.instantiate(NI, ([list(r) for r in ntt],))
         if [list(r) for r in info2._d['truth_table']] != ntt:
             probs.append(f'{_s(ntt)} renormalises to {_s(info2._d["truth_table"])}')
-    ck.check(not probs, 'C17.NORM', nm, nm.func('NormalizationInfo._normalize'), 'normalisation is idempotent', '; '.join(probs[:3]), construct='NormalizationInfo normal form idempotent')
+    ck.check(not probs, 'C17.NORM', nm, nm.functions.get('NormalizationInfo._normalize') or nm.cls('NormalizationInfo'), 'normalisation is idempotent', '; '.join(probs[:3]), construct='NormalizationInfo normal form idempotent')
 
     with ck.soft('C17.NORM / C17.DB (normalise and denormalise folded over every small table)'):
         # ---- MIRROR (structural) ----
